@@ -32,12 +32,14 @@ AdditiveOperands ==
   \cup (IF ScaleOf(acc) = MOne THEN {Num(MRat(r)) : r \in Rs} ELSE {})
   \cup {UA(<<Matched(r, s), Matched(<<2, 1>>, s)>>, Sys(s), acc.dim) : r \in {<<3, 1>>, <<-3, 2>>}, s \in 1..NSys}
   \cup {UA(<<Matched(<<2, 1>>, 1), Matched(<<2, 1>>, 1), Matched(<<2, 1>>, 1)>>, Sys(1), acc.dim)}   \* other length
+  \cup {UA(<<Matched(<<2, 1>>, 1)>>, Sys(1), acc.dim)}                                                \* a single element is a length like any other
   \cup {UA(<<MRat(<<2, 1>>), MRat(<<3, 1>>)>>, Sys(1), OtherDim(acc.dim))}
 MulOperands ==
      {UV(MRat(r), Sys(s), d) : r \in {<<2, 1>>, <<-3, 2>>, <<5, 4>>}, s \in 1..NSys, d \in Dims}
   \cup {Num(MRat(r)) : r \in Rs}
   \cup {UA(<<MRat(r), MRat(<<2, 1>>)>>, Sys(s), d) : r \in {<<3, 1>>}, s \in 1..NSys, d \in {<<1, 0, 0>>, <<-3, 0, 1>>, <<0, -1, 0>>}}
   \cup {UA(<<MRat(<<2, 1>>), MRat(<<2, 1>>), MRat(<<2, 1>>)>>, Sys(1), <<1, 0, 0>>)}
+  \cup {UA(<<MRat(<<5, 1>>)>>, Sys(1), <<0, 1, 0>>)}
 PowOperands == {Num(MRat(e)) : e \in Exps} \cup {UV(MRat(<<2, 1>>), Sys(1), Dimless)}
 CmpOperands ==
      {UV(Matched(r, s), Sys(s), acc.dim) : r \in Rs, s \in 1..NSys}
